@@ -16,6 +16,19 @@ const (
 	verifTickWritten
 	verifTickDispatch
 	verifTickHandlerGone
+	verifTickCliRead
+	verifTickCliRLExit
+	verifTickCliInSent
+	verifTickCliInTaken
+	verifTickCliOutSent
+	verifTickCliOutTaken
+	verifTickCliWinSent
+	verifTickCliWinTaken
+	verifTickCliPingTaken
+	verifTickCliWLTop
+	verifTickCliWLExit
+	verifTickCliTimeout
+	verifTickCliCloseDone
 )
 
 func verifTick(which int)                    {}
